@@ -31,7 +31,7 @@ AllBits(n) == IF n = 0 THEN {<<>>} ELSE {Append(s, x) : s \in AllBits(n - 1), x 
 (* headers and indices that no short exhaustive string and no single bit   *)
 (* flip reaches                                                            *)
 Evil ==
-  { <<1>> \o <<0>> \o NatBits(k, 7) \o Ones(8 * k) : k \in {1, 2, 8, 9} }     \* normally small ">= 64" form, k octets of 0xFF
+  { <<1>> \o <<0>> \o NatBits(k, 7) \o Ones(8 * k) : k \in {1, 2, 3, 4, 8, 9} }     \* normally small ">= 64" form, k octets of 0xFF
   \cup { <<1, 1>> \o NatBits(m, 6) : m \in {0, 1, 4, 5, 63} }                 \* fragment header with multiplier m
   \cup { <<1, 0>> \o Ones(14), <<1, 0>> \o Pad(14) }                          \* two-octet length 16383 / 0
   \cup { <<0>> \o Ones(7), Pad(8) }                                           \* one-octet length 127 / 0
